@@ -11,6 +11,8 @@ import itertools
 import os
 import z3
 from contracts.common import *  # noqa
+from contracts import structure
+from contracts.structure import *  # noqa
 from contracts import common, deferred_c, compiler_c, meta_c
 from contracts.deferred_c import *  # noqa
 from contracts.compiler_c import *  # noqa
@@ -56,6 +58,9 @@ def unit_rac(eng):
         ("h = (fin - beg) / 2\nbeg:\n. = 2000 + h\n.word 1, 2, 3, 4\nfin:\n", 0o2004),
         # ... and a statement that uses the alias (tried out while it is compiled, before the base is asked for in earnest)
         ("x = (end - start)/2\nstart:\n.link 1000 + x\nnop\nnop\nend:\n.word x\n", 0o1002), ("x = <end - start> >> 1\nstart:\n.link 3000 + x\n.byte x, 0\nnop\nend:\nmov #x, r0\n", 0o3002),
+        # division and shifts of NEGATIVE differences (the quotient is the floor; shifts of negative values are arithmetic)
+        ("la: nop\nnop\nnop\nnop\nlb:\n.link 1000 + 2*<<la - lb>/3>\n", 0o772), ("q = <la - lb>/3\nla: .blkb 10\nlb:\n.link 2000 + q\n", 0o1775), ("la: .blkb 7\nlb:\n.link 1000 + <<la - lb> >> 1>\n", 0o774),
+        ("la: .blkb 7\nlb:\n.link 1000 + <<la - lb> % 4>\n", 0o1001),
         # labels in other files, directly and through aliases (D50), aliases of aliases, the directive in the second file
         ((".link 2000 + e - s\ns: .word 1\n", ".word 2\ne::\n"), 0o2004), ((".link 2000 + x - s\ns: .word 1\nx = e\n", ".word 2\ne::\n"), 0o2004),
         ((".link 2000 + x - s\ns: .word 1\nx = y\ny = e\n", ".word 2\ne::\n"), 0o2004), (("x = e\n.link 2000 + x - s\ns: .word 1\n", ".word 2\ne::\n"), 0o2004),
@@ -109,6 +114,7 @@ def units(tier):
     for name, fn, kw in deferred_c.all_units():
         if name.startswith("promise") or name.startswith("poly-wait") or "x-x" in name or "x-y" in name or name.startswith("poly[sub") or name.startswith("awaiting"):
             us.append((name, fn, kw))
+    us += structure.expr_units()
     return us
 
 
@@ -128,6 +134,9 @@ def canary(eng):
 
 
 def replay(o, tree):
+    r_ = structure.replay(o, tree)
+    if r_ is not None:
+        return r_
     label = o.get("label", "")
     unit = o.get("unit", "")
     if (o.get("cfg") or {}).get("kind") == "poly-nested":
